@@ -311,7 +311,14 @@ def do_replay(path, C):
         if runner._jsonable(cs) == case:
             case = cs
             break
-    K = C.Kit("conc", env=env, seed=0, tol=getattr(cls, "tol", 1e-4))
+    # bounded failures: inputs drawn from the kit's generator are reproduced by its seed
+    kit_seed = 0
+    if body.get("found_by") == "bounded":
+        try:
+            kit_seed = int((body.get("replay_on_real_code") or {}).get("seed", 0))
+        except (TypeError, ValueError):
+            kit_seed = 0
+    K = C.Kit("conc", env=env, seed=kit_seed, tol=getattr(cls, "tol", 1e-4))
     try:
         c.run(case, K)
     except C.InputRejected as ex:
